@@ -58,12 +58,13 @@ def check_extensions(thy, exts):
                 for t in list(th.hyps) + [th.prop]:
                     for T in all_types_of_term(t, []):
                         thy.check_type(T)
-                    thy.check_term(t)
+                    # Theory.check_term has no case for schematic variables (TypeError): go through
+                    # the constants, which is all check_term looks at
+                    for c in t.get_consts():
+                        thy.check_term(c)
                     if t.is_open():
                         raise ValueError("open term")
                 th.check_thm_type()
-                if thy.get_theorem(ext.name, svar=False) != th:
-                    raise ValueError("theorem not installed")
             elif ext.is_attribute():
                 if not thy.has_theorem(ext.name):
                     raise ValueError("attribute for a missing theorem")
@@ -95,12 +96,24 @@ class ItemRun:
         self.old_thy = None
 
     def run(self):
+        # the parser prints "When parsing: …" on failures: keep the check's output readable
+        import contextlib
+        import io
+        with contextlib.redirect_stdout(io.StringIO()):
+            return self._run()
+
+    def _run(self):
+        from server import items
+        raw = self.raw
+        item = items.parse_item(copy.deepcopy(raw))
+        self.item = item
+        return self._rest(item)
+
+    def _rest(self, item):
         from kernel import theory
         from server import items
         from syntax.settings import global_setting
         raw = self.raw
-        item = items.parse_item(copy.deepcopy(raw))
-        self.item = item
         if item.error is not None:
             self.status, self.err = "error", "%s: %s" % (type(item.error).__name__, str(item.error)[:200])
             # the editor form of a rejected item must still be computable (raw strings are shown)
@@ -260,6 +273,7 @@ class DefGen:
     def __init__(self, rng, counter):
         self.rng = rng
         self.counter = counter
+        self.bases = BASES          # base types binders / equations may use (type variables of the constant's type)
 
     def fresh(self, prefix):
         self.counter[0] += 1
@@ -286,7 +300,7 @@ class DefGen:
         if k == "bool":
             c = rng.randrange(9)
             if c == 0:
-                S = extra_tv if (extra_tv and rng.random() < 0.5) else rng.choice(BASES + [fun(TA, BOOL)])
+                S = rng.choice(self.bases + ([fun(TA, BOOL)] if TA in self.bases else []))
                 return "(%s = %s)" % (self.term(S, depth - 1, env), self.term(S, depth - 1, env))
             if c == 1:
                 return "(%s --> %s)" % (self.term(BOOL, depth - 1, env), self.term(BOOL, depth - 1, env))
@@ -297,7 +311,7 @@ class DefGen:
             if c == 4:
                 return "(%s | %s)" % (self.term(BOOL, depth - 1, env), self.term(BOOL, depth - 1, env))
             if c in (5, 6):
-                S = rng.choice(BASES)
+                S = rng.choice(self.bases)
                 v = rng.choice(BNAMES + [n for n, _ in env][:1])
                 return "(%s%s::%s. %s)" % ("!" if c == 5 else "?", v, ty_str(S), self.term(BOOL, depth - 1, [(v, S)] + [e for e in env if e[0] != v]))
             if c == 7:
@@ -360,6 +374,7 @@ class DefGen:
         tv = []
         for A in argTs:
             ty_tvars(A, tv)
+        self.bases = [B for B in BASES if B[0] != "tv" or B[1] in tv]
         resC = [BOOL, BOOL, NAT] + [("tv", v) for v in tv] + ([fun(TA, BOOL)] if "a" in tv else []) + ([("list", TA)] if "a" in tv else [])
         R = rng.choice(resC)
         names = rng.sample(VNAMES, n)
@@ -493,6 +508,11 @@ def subst_ty(T, m):
 
 
 def overloaded_items(rng, g):
+    g.bases = [BOOL, NAT]
+    return _overloaded_items(rng, g)
+
+
+def _overloaded_items(rng, g):
     """definitions of instances of overloaded constants: new instances (bool, 'a list, nat => nat …)
     with right-hand sides that use the same name at another instance (allowed when the types are
     apart), at the same instance or at an overlapping one (must be rejected), and re-definitions of
@@ -642,6 +662,7 @@ def datatype_item(rng, g):
 
 
 def fun_item(rng, g):
+    g.bases = [BOOL, NAT, TA]
     name = g.fresh("fn")
     R = rng.choice([NAT, BOOL, TA, ("list", TA)])
     over = rng.choice([NAT, NAT, ("list", TA)])
@@ -704,6 +725,7 @@ def fun_item(rng, g):
 
 
 def inductive_item(rng, g):
+    g.bases = [BOOL, NAT, TA]
     name = g.fresh("pr")
     argTs = rng.choice([[NAT], [NAT, NAT], [TA, ("list", TA)], [TA], [NAT, BOOL]])
     T = fun(*(argTs + [BOOL]))
@@ -743,6 +765,7 @@ def inductive_item(rng, g):
 
 def other_item(rng, g):
     """axiomatic constants, axioms, theorems with attributes, axiomatic types, headers"""
+    g.bases = BASES
     c = rng.randrange(6)
     if c == 0:
         return "constant", {"ty": "def.ax", "name": g.fresh("ac"), "type": ty_str(rng.choice(ARG_TYPES))}
@@ -760,18 +783,404 @@ def other_item(rng, g):
         if rng.random() < 0.5:
             it["attributes"] = ["hint_rewrite"]
         if rng.random() < 0.3:
-            it["num_gaps"] = 1
-            it["proof"] = []
-            it["steps"] = []
+            it["num_gaps"] = rng.randint(0, 2)
+            it["proof"] = [{"id": "0", "rule": "sorry", "args": "", "prevs": [], "th": "|- " + it["prop"]}]
+            it["steps"] = [{"method_name": "introduction", "goal_id": "0"}]
         return "theorem", it
     if c == 4:
         return "axtype", {"ty": "type.ax", "name": g.fresh("at"), "args": rng.choice([[], ["a"], ["a", "b"]])}
     return "header", {"ty": "header", "name": "Section %d" % rng.randrange(100), "depth": rng.randrange(3)}
 
 
+# ------------------------------------------------------------------ oracle helpers (s-expression level)
+def sx_ty_tvars(x, acc):
+    if x[0] == "V":
+        if x[1] not in acc:
+            acc.append(x[1])
+    elif x[0] == "C":
+        for a in x[2:]:
+            sx_ty_tvars(a, acc)
+    return acc
+
+
+def sx_term_tvars(x, acc):
+    k = x[0]
+    if k in ("sv", "v", "c"):
+        sx_ty_tvars(x[2], acc)
+    elif k == "ap":
+        sx_term_tvars(x[1], acc)
+        sx_term_tvars(x[2], acc)
+    elif k == "ab":
+        sx_ty_tvars(x[2], acc)
+        sx_term_tvars(x[3], acc)
+    return acc
+
+
+def sx_ty_subst(x, m):
+    if x[0] == "V":
+        return m.get(x[1], x)
+    if x[0] == "C":
+        return x[:2] + [sx_ty_subst(a, m) for a in x[2:]]
+    return x
+
+
+def sx_term_subst(x, m):
+    k = x[0]
+    if k in ("sv", "v", "c"):
+        return [k, x[1], sx_ty_subst(x[2], m)]
+    if k == "ap":
+        return ["ap", sx_term_subst(x[1], m), sx_term_subst(x[2], m)]
+    if k == "ab":
+        return ["ab", x[1], sx_ty_subst(x[2], m), sx_term_subst(x[3], m)]
+    return x
+
+
+def sx_consts(x, acc):
+    k = x[0]
+    if k == "c":
+        acc.append((x[1], x[2]))
+    elif k == "ap":
+        sx_consts(x[1], acc)
+        sx_consts(x[2], acc)
+    elif k == "ab":
+        sx_consts(x[3], acc)
+    return acc
+
+
+def sx_unify(a, b):
+    """most general unifier of two type s-expressions over disjoint type variables (dict) or None;
+    independent of `Type.is_apart`"""
+    sub = {}
+
+    def walk(t):
+        while t[0] == "V" and t[1] in sub:
+            t = sub[t[1]]
+        return t
+
+    def occurs(v, t):
+        t = walk(t)
+        if t[0] == "V":
+            return t[1] == v
+        return t[0] == "C" and any(occurs(v, u) for u in t[2:])
+
+    def uni(s, t):
+        s, t = walk(s), walk(t)
+        if s[0] == "V" and t[0] == "V" and s[1] == t[1]:
+            return True
+        if s[0] == "V":
+            if occurs(s[1], t):
+                return False
+            sub[s[1]] = t
+            return True
+        if t[0] == "V":
+            return uni(t, s)
+        if s[0] != "C" or t[0] != "C":
+            return s == t
+        if s[1] != t[1] or len(s) != len(t):
+            return False
+        return all(uni(u, v) for u, v in zip(s[2:], t[2:]))
+
+    def resolve(t):
+        t = walk(t)
+        if t[0] == "C":
+            return t[:2] + [resolve(u) for u in t[2:]]
+        return t
+    if not uni(a, b):
+        return None
+    return {v: resolve(["V", v]) for v in list(sub)}
+
+
+def rename_apart(x, suffix):
+    if x[0] == "V":
+        return ["V", x[1] + suffix]
+    if x[0] == "C":
+        return x[:2] + [rename_apart(a, suffix) for a in x[2:]]
+    return x
+
+
+U1, U2, U3 = ["V", "u1"], ["V", "u2"], ["V", "u3"]
+SXBOOL = ["C", "bool"]
+#        stvars                 tvars (u1,u2,u3 fixed)                        constructors              default
+SPECS = [([], [["u1", 1], ["u2", 2], ["u3", 3]], [["nat", 2], ["int", 2], ["list", 2]], 2),
+         ([], [["u1", 1], ["u2", 2], ["u3", 3]], [["nat", 3], ["int", 1], ["list", 1]], 1),
+         ([], [["u1", 1], ["u2", 2], ["u3", 3]], [["nat", 1], ["int", 3], ["list", 3]], 2)]
+
+
+def oracle_groups(rng, name_s, T_s, prop_s, ngroups):
+    """Lists of ground-ish instances of the defining equation that share the type of the defined
+    constant (so that one value of the constant has to satisfy all of them).  Type variables are
+    instantiated by bool and by the type variables u1/u2/u3 (sizes 1/2/3 in every model spec)."""
+    tvT = sx_ty_tvars(T_s, [])
+    tvP = sx_term_tvars(prop_s, [])
+    extra = [v for v in tvP if v not in tvT]
+    choices = [U1, U2, SXBOOL, U3]
+    sigmas = [{v: U2 for v in tvT}, {v: U1 for v in tvT}]
+    for _ in range(max(0, ngroups - 2)):
+        sigmas.append({v: rng.choice(choices) for v in tvT})
+    # instances at which an occurrence of the constant on the right meets the constant being defined
+    eq = prop_s
+    rhs = eq[2]
+    for (n, S) in sx_consts(rhs, []):
+        if n == name_s and S != T_s:
+            th = sx_unify(T_s, rename_apart(S, "~"))
+            if th is not None:
+                th = {v: t for v, t in th.items() if not v.endswith("~")}
+                # the occurrence must be instantiated compatibly: unify again with shared variables
+                th2 = sx_unify(T_s, S)
+                for cand in (th2, th):
+                    if cand is not None:
+                        sig = {v: sx_ty_subst(cand.get(v, ["V", v]), {}) for v in tvT}
+                        sigmas.append(sig)
+    groups, seen = [], set()
+    for sig in sigmas:
+        full0 = dict(sig)
+        # remaining type variables of the instance (introduced by a unifier) and the extra ones
+        Tinst = sx_ty_subst(T_s, full0)
+        rest = [v for v in sx_ty_tvars(Tinst, []) if v not in ("u1", "u2", "u3")]
+        ground = {v: U2 for v in rest}
+        Tinst = sx_ty_subst(Tinst, ground)
+        base = {v: sx_ty_subst(t, ground) for v, t in full0.items()}
+        for v in rest:
+            base.setdefault(v, U2)
+        combos = [[]]
+        for v in extra:
+            combos = [c + [(v, t)] for c in combos for t in (U1, SXBOOL, U2)]
+        combos = combos[:6]
+        props = []
+        for c in combos:
+            m = dict(base)
+            m.update(dict(c))
+            pi = sx_term_subst(prop_s, m)
+            # anything still uninstantiated (type variables only inside the occurrence types)
+            left = [v for v in sx_term_tvars(pi, []) if v not in ("u1", "u2", "u3")]
+            if left:
+                pi = sx_term_subst(pi, {v: U2 for v in left})
+            props.append(pi)
+        key = sexp.dumps([Tinst, props])
+        if key not in seen:
+            seen.add(key)
+            groups.append((Tinst, props))
+    return groups
+
+
+def parse_def_prop(raw):
+    """what `Definition.parse` hands to its checks: (type, prop) or None when the parser fails"""
+    import contextlib
+    import io
+    with contextlib.redirect_stdout(io.StringIO()):
+        return _parse_def_prop(raw)
+
+
+def _parse_def_prop(raw):
+    from logic import context
+    from syntax import parser
+    try:
+        T = parser.parse_type(raw['type'])
+        with context.fresh_context(defs={raw['name']: T}):
+            prop = parser.parse_term(raw['prop'])
+        return T, prop
+    except Timeout:
+        raise
+    except Exception:
+        return None
+
+
+def declared_constants(names):
+    """(name, type-sexp, theory, item-ty) of every constant the loaded items declare, except the
+    generic declarations of overloaded constants"""
+    from logic import basic
+    out = []
+    for n in names:
+        for it in basic.load_theory_cache(n)['content']:
+            if it.error is not None:
+                continue
+            exts = it.get_extension()
+            if any(e.is_overload() for e in exts):
+                continue
+            for e in exts:
+                if e.is_constant():
+                    out.append((e.name, kwire.ty_to(e.T), n, it.ty))
+    return out
+
+
+GEN_BASE = "int"
+
+
+def run_generated(ctx, ncases):
+    from logic import basic
+    from kernel import theory
+    rng = ctx.rng("generated")
+    basic.load_theory(GEN_BASE)
+    base = theory.thy
+    decl = declared_constants(basic.get_import_order([GEN_BASE]))
+    counter = [0]
+    g = DefGen(rng, counter)
+    cases = list(corpus_items(ctx))
+    for _ in range(ncases):
+        r = rng.random()
+        if r < 0.55:
+            cases.append(g.item())
+        elif r < 0.70:
+            cases += overloaded_items(rng, g)
+        elif r < 0.80:
+            cases.append(datatype_item(rng, g))
+        elif r < 0.88:
+            cases.append(fun_item(rng, g))
+        elif r < 0.94:
+            cases.append(inductive_item(rng, g))
+        else:
+            cases.append(other_item(rng, g))
+    model_lines, model_owner = [], []
+    oracle_lines, oracle_owner = [], []
+    results = []
+    for ci, (kind, raw) in enumerate(cases):
+        theory.thy = copy.copy(base)
+        with time_limit(60):
+            r = ItemRun(raw).run()
+        results.append(r)
+        ctx.count("gen:%s:%s" % (kind, r.status))
+        ctx.case(("gen", json.dumps(raw, sort_keys=True)), nontrivial=(r.status == "accepted"))
+        if ci < 3 or (r.status == "accepted" and ci % 97 == 0):
+            ctx.sample({"kind": kind, "item": raw, "status": r.status, "error": r.err})
+        key_raw = json.dumps(raw, sort_keys=True, ensure_ascii=False)
+        for cls, detail in r.defects:
+            ctx.violation(gen_key(raw, cls, detail), "generated %s item (%s): %s" % (raw['ty'], kind, detail),
+                          {"stream": "generated", "base": GEN_BASE, "raw": raw, "defect": cls, "kind": kind})
+        if raw['ty'] != 'def':
+            continue
+        # ---- definitions: model verdict on what the parser produced
+        theory.thy = copy.copy(base)
+        with time_limit(60):
+            parsed = parse_def_prop(raw)
+        if parsed is None:
+            ctx.count("gen:def:unparsable")
+            if r.status != "error":
+                ctx.broken("correspondence:c11:def", "parser failed on the harness side but the item was accepted: %s" % key_raw[:300])
+            continue
+        T, prop = parsed
+        name_s, T_s, prop_s = sexp.enc(raw['name']), kwire.ty_to(T), kwire.term_to(prop)
+        model_lines.append(sexp.dumps(["defok", name_s, T_s, prop_s]))
+        model_owner.append((ci, kind, raw, r))
+        if r.status == "accepted":
+            # newness: the instance must not overlap a declared one
+            for (dn, dT, dth, dty) in decl:
+                if dn == raw['name'] and sx_unify(T_s, rename_apart(dT, "~")) is not None:
+                    ctx.violation("redeclared-instance:%s" % raw['name'],
+                                  "definition of %s :: %s accepted although %s :: %s is declared in theory %s (%s)" % (
+                                      raw['name'], raw['type'], dn, sexp.dumps(dT), dth, dty),
+                                  {"stream": "generated", "base": GEN_BASE, "raw": raw, "defect": "redeclared-instance", "kind": kind})
+                    break
+            if prop_s[0] == "ap" and prop_s[1][0] == "ap":
+                for gi, (Tinst, props) in enumerate(oracle_groups(rng, name_s, T_s, prop_s, ctx.scale(3, 5))):
+                    for si, spec in enumerate(SPECS[: ctx.scale(2, 3)]):
+                        oracle_lines.append(sexp.dumps(["defcex", name_s, Tinst, props, list(spec), ctx.scale(12, 40),
+                                                        ctx.seed * 7919 + si, 20000]))
+                        oracle_owner.append((ci, kind, raw, si))
+    theory.thy = base
+    # ---- correspondence
+    out = ctx.lean_driver(EXE, model_lines, timeout=1200) if model_lines else []
+    if out is None:
+        ctx.broken("correspondence:c11:driver", "model driver unavailable")
+    else:
+        ndis = 0
+        for (ci, kind, raw, r), line in zip(model_owner, out):
+            m = sexp.loads(line)
+            if m == "bad-op" or len(m) != 2:
+                ctx.broken("correspondence:c11:def", "driver answered %s for %s" % (line[:80], json.dumps(raw, ensure_ascii=False)[:300]))
+                continue
+            mok, reason = (m[0] == "T"), m[1]
+            pok = r.status != "error"
+            ctx.count("defok:%s" % reason)
+            if (reason == "ok") != mok:
+                ctx.broken("correspondence:c11:reason", "defOK=%s but defReason=%s on %s" % (mok, reason, json.dumps(raw, ensure_ascii=False)[:300]))
+            if mok != pok:
+                ndis += 1
+                ctx.coverage["disagreements_checked"] += 1
+                if ndis <= 3:
+                    ctx.broken("correspondence:c11:def", "Definition.parse %s (%s) but defOK=%s (%s) on %s" % (
+                        "accepts" if pok else "rejects", r.err, mok, reason, json.dumps(raw, ensure_ascii=False)[:400]))
+    # ---- property oracle on the accepted definitions
+    out = ctx.lean_driver(EXE, oracle_lines, timeout=3000) if oracle_lines else []
+    if out is None:
+        ctx.broken("oracle:c11:driver", "model driver unavailable for the semantic oracle")
+    else:
+        nok = nskip = 0
+        for (ci, kind, raw, si), line, oline in zip(oracle_owner, out, oracle_lines):
+            m = sexp.loads(line)
+            if m[0] == "ok":
+                nok += 1
+            elif m[0] == "skip":
+                nskip += 1
+                ctx.count("oracle:skip:%s" % m[1])
+            elif m[0] == "cex":
+                ctx.violation("non-conservative:" + json.dumps(raw, sort_keys=True, ensure_ascii=False)[:300],
+                              "accepted definition %s has no interpretation in a finite model: %s" % (raw['name'], raw['prop']),
+                              {"stream": "generated", "base": GEN_BASE, "raw": raw, "defect": "non-conservative", "kind": kind,
+                               "oracle_line": oline, "old_valuation": m[1]})
+            else:
+                ctx.broken("oracle:c11:driver", "unexpected answer %s" % line[:100])
+        ctx.coverage["oracle"] = {"definitions_accepted": len({o[0] for o in oracle_owner}), "model_checks_ok": nok, "skipped_too_costly": nskip}
+        ctx.count("oracle:ok", nok)
+    return len(cases)
+
+
+def gen_key(raw, cls, detail):
+    """key of a defect found on a generated item: item kind, defect class and the first words of
+    the failure (no generated names)"""
+    import re
+    d = re.sub(r"\b(c|dt|K|fn|pr|ac|oc|ax|th|at|bl)\d+\b", "N", detail)
+    d = re.sub(r"pr\d+_r\d+|N_rN|N_r\d+", "N", d)
+    return "generated:%s:%s:%s" % (raw['ty'], cls, d[:80])
+
+
+def corpus_items(ctx):
+    """hand-written regression items: the defects of the pinned tree (must stay rejected) and a few
+    library-style definitions (must stay accepted)"""
+    fixed = [
+        ("corpus:self-ref", {"ty": "def", "name": "cbad", "type": "bool", "prop": "cbad <--> ~cbad"}),
+        ("corpus:self-ref", {"ty": "def", "name": "cbad2", "type": "bool", "prop": "cbad2 <--> (cbad2 --> (!p::bool. p))"}),
+        ("corpus:extra-tvar", {"ty": "def", "name": "c2", "type": "bool", "prop": "c2 <--> (!x::'a. !y::'a. x = y)"}),
+        ("corpus:free-var", {"ty": "def", "name": "c3", "type": "bool => bool", "prop": "c3 x <--> (x = y)"}),
+        ("corpus:free-var", {"ty": "def", "name": "c3s", "type": "nat => nat", "prop": "c3s x = ?y + x"}),
+        ("corpus:repeated-arg", {"ty": "def", "name": "c4", "type": "bool => bool => bool", "prop": "c4 x x <--> x"}),
+        ("corpus:non-var-arg", {"ty": "def", "name": "c5", "type": "bool => bool", "prop": "c5 ((f::bool => bool) x) <--> x"}),
+        ("corpus:non-var-arg", {"ty": "def", "name": "c6", "type": "bool => bool", "prop": "c6 true <--> false"}),
+        ("corpus:stvar", {"ty": "def", "name": "c7", "type": "'a => ?'a => bool", "prop": "c7 x y <--> true"}),
+        ("corpus:overload:redefine", {"ty": "def", "name": "zero", "type": "int", "prop": "(zero::int) = of_nat (1::nat)"}),
+        ("corpus:overload:self", {"ty": "def", "name": "zero", "type": "bool", "prop": "(zero::bool) = ~(zero::bool)"}),
+        ("corpus:overload:overlap", {"ty": "def", "name": "zero", "type": "'a list", "prop": "(zero::'a list) = (if (zero::nat list) = [] then [] else [])"}),
+        ("corpus:overload:other-instance", {"ty": "def", "name": "zero", "type": "bool", "prop": "(zero::bool) <--> ((zero::nat) = 0)"}),
+        ("corpus:valid", {"ty": "def", "name": "Kc", "type": "'a => 'b => 'a", "prop": "Kc x y = x"}),
+        ("corpus:valid", {"ty": "def", "name": "compc", "type": "('b => 'c) => ('a => 'b) => 'a => 'c", "prop": "compc f g x = f (g x)"}),
+        ("corpus:valid", {"ty": "def", "name": "Ic", "type": "'a => 'a", "prop": "Ic = (%x::'a. x)", "attributes": ["hint_rewrite"]}),
+    ]
+    return fixed
+
+
 def run(ctx):
+    ctx.coverage["rule"] = (
+        "stream library: every item of the chosen library theories (thorough: all 43; quick: 14 fixed small theories + 3 sampled), a case = one item, "
+        "non-trivial = accepted and not a header. stream generated: item descriptions (strings as in the JSON files) over bool, 'a, 'b, nat, lists and "
+        "function types up to order 2: ~35% definitions meeting every side condition, the rest violate one on purpose (self reference, extra type "
+        "variable, repeated / non-variable argument, free or schematic variable, schematic type variable, wrong shape, eta-reduced, shadowing), "
+        "definitions of overloaded names (new / other / same / overlapping / existing instance), datatypes, recursive functions, inductive predicates "
+        "(valid and malformed), axioms, theorems with attributes, constants, types, headers; a case = one item, non-trivial = accepted; distinct by "
+        "the JSON text.")
+    ok = ctx.lean_props(["Holpy.C11.Props"], exes=[EXE])
+    if ctx.tier == "thorough" and ok:
+        ctx.lean_check_modules(["Holpy.C11.Props"])
+    ctx.coverage["trusted_base"] += [
+        "correspondence harness harness/props/c11.py + harness/common/kwire.py (field-level serialisation of real Term objects)",
+        "the Lean evaluator `sem` run as an executable oracle (same definition the theorems are about)",
+        "holpy's parser and printer (C07) produce the terms the side conditions are checked on"]
+    ctx.assumptions += [
+        "finite standard models; the new constant is new: for overloaded names this is the instance check of add_term_sig (fix C11-2)",
+        "Fun / Inductive / Datatype / Axiom / Constant items are axiomatic: only well-typedness of their extensions and the round trips are checked",
+        "oracle instances whose evaluation cost exceeds the budget are skipped (counted)"]
     from logic import basic
     basic.load_metadata()
+    with time_limit(600):
+        basic.load_theory('real')      # before anything that imports data.real (see C12: nested load_theory)
     names = library_names(ctx)
     order = basic.get_import_order(names)
     if ctx.tier == "quick":
@@ -781,11 +1190,66 @@ def run(ctx):
         order = [n for n in order if n in chosen]
     n = run_library(ctx, order)
     ctx.log("library: %d items of %d theories" % (n, len(order)))
+    m = run_generated(ctx, ctx.scale(700, 6000))
+    ctx.log("generated: %d items" % m)
 
 
 def replay(ctx, rp):
-    return False
+    """re-run one recorded failing input; True if it still fails"""
+    from logic import basic
+    from kernel import theory
+    r = rp["replay"]
+    basic.load_metadata()
+    with time_limit(600):
+        basic.load_theory('real')
+    if r.get("stream") == "library":
+        data = basic.load_json_data(r["theory"])
+        basic.load_theory(r["theory"], limit='start')
+        res = None
+        for idx, raw in enumerate(data['content'][: r["index"] + 1]):
+            res = ItemRun(raw).run()
+        print(res.status, res.err, res.defects)
+        return res.status != "accepted" or bool(res.defects)
+    basic.load_theory(r.get("base", GEN_BASE))
+    raw = r["raw"]
+    res = ItemRun(raw).run()
+    print(res.status, res.err, res.defects)
+    cls = r.get("defect")
+    if cls in ("non-conservative", "redeclared-instance"):
+        if res.status != "accepted":
+            return False
+        if cls == "non-conservative" and "oracle_line" in r:
+            out = ctx.lean_driver(EXE, [r["oracle_line"]])
+            print(out)
+            return bool(out) and out[0].startswith("(cex")
+        return True
+    return bool(res.defects)
 
 
-MANIFEST = {"text": "", "note": "", "design_ref": "DESIGN.md 4/C11"}
-FINDINGS = []
+MANIFEST = {
+    "text": "Lean theorems about the model `defOK` of the (fixed) side conditions of Definition.parse: an accepted definition has, in every finite "
+            "standard model and for every interpretation of the old signature, exactly the interpretation of the new constant given by its right-hand "
+            "side, under which the defining equation holds for all values of all variables (def_conservative), so a satisfiable set of sequents stays "
+            "satisfiable with the equation added (def_keeps_consistency); each side condition has a counterexample theorem; the equation of an accepted "
+            "definition passes check_thm_type (def_ext_welltyped). defOK is tied to server/items.py by differential execution on generated item "
+            "descriptions (the parser's output is what both sides see); every accepted generated definition is searched for a finite counter-model "
+            "with the same `sem`; every item of the library files and generated datatypes / functions / inductive predicates / axioms are run through "
+            "parse_item, get_extension (checked with Theory.check_type/check_term, Thm.check_thm_type over the extended theory), and both round trips "
+            "exactly as monitor.check_theory compares them.",
+    "note": "Trusted: Lean kernel, axioms propext/Classical.choice/Quot.sound; the parser/printer (C07/C08); the hand model's fidelity is as good as the "
+            "generated items exercise it. Fun/Inductive/Datatype/Axiom are axiomatic: no conservativity claim. For overloaded constants newness is "
+            "the instance check added to add_term_sig (fix C11-2); generic axioms about an overloaded constant constrain later instances by design.",
+    "design_ref": "DESIGN.md 4/C11",
+}
+FINDINGS = [
+    {"status": "fixed", "key": "non-conservative:def-side-conditions", "commit": "fixes/C11-1.patch",
+     "what": "Definition.parse accepted `cbad <--> ~cbad`, `c2 <--> (!x::'a. !y::'a. x = y)`, `d x = ?y + x`, `c (f x) <--> x`: the constant in its own "
+             "definition, a type variable of the rhs missing from the constant's type, schematic variables, non-variable arguments"},
+    {"status": "fixed", "key": "redeclared-instance:zero", "commit": "fixes/C11-2.patch",
+     "what": "a second `def zero :: int` ((0::int) = of_nat 1) was accepted after theory int: add_term_sig did not record the declared instances of an "
+             "overloaded constant"},
+    {"status": "fixed", "key": "generated:type.ind:ill-typed-extension", "commit": "fixes/C11-3.patch",
+     "what": "Datatype.parse accepted constructors whose type does not end in the datatype, or with fewer/more/repeated argument names than arguments: "
+             "get_extension produced ill-typed theorems, raised, or the editor form failed with IndexError; "
+             "an argument named P clashed with the induction predicate (TermException in get_extension)"},
+]
